@@ -16,6 +16,7 @@ PROPS = {
     "C08": {"jobs": [{"pkg": "codec", "run": "^TestC08", "checks_quick": 20000, "checks_thorough": 40000, "shards_thorough": 8, "xproc": True}]},
     "C09": {"jobs": [{"pkg": "load", "run": "^TestC09$", "checks_quick": 1500, "checks_thorough": 2500, "shards_thorough": 16}]},
     "C10": {"jobs": [{"pkg": "load", "run": "^TestC10$", "checks_quick": 1500, "checks_thorough": 2500, "shards_thorough": 16}]},
+    "C11": {"jobs": [{"pkg": "load", "run": "^TestC11$", "checks_quick": 1500, "checks_thorough": 2500, "shards_thorough": 16}], "timeout_quick": 1200},
     "C12": {"jobs": [{"pkg": "hostile", "run": "^(TestC12|FuzzC12Decode)$", "checks_quick": 6000, "checks_thorough": 12000, "shards_thorough": 12, "wal": True},
                      {"pkg": "hostile", "fuzz": "FuzzC12Decode", "tiers": ["thorough"], "shards_thorough": 1, "fuzztime_thorough": "240s"}]},
     "C15": {"jobs": [{"pkg": "iter", "run": "^TestC15$", "checks_quick": 4000, "checks_thorough": 6000, "shards_thorough": 16}]},
